@@ -57,6 +57,10 @@ func main() {
 		os.Exit(loadfam.CheckMerge(os.Args[1], tier))
 	case "grow-locate":
 		os.Exit(loadfam.GrowLocate())
+	case "grow-special":
+		os.Exit(loadfam.GrowSpecial())
+	case "grow-echo":
+		os.Exit(loadfam.GrowEcho())
 	case "C11":
 		tier := "quick"
 		if len(os.Args) > 2 {
